@@ -290,8 +290,8 @@ pub fn judge(ctx: &mut Ctx, path_of_uri: &str, registered: &[usize], o: &Outcome
 
 pub fn run(cfg: &RunCfg) -> Ctx {
     let mut all = Ctx::new();
-    all.merge(par_cases(cfg, "routes", cfg.n(12_000, 16 * 20_000), || (), |_, rng, ctx, _| case(rng, ctx)));
-    all.merge(par_cases(cfg, "h2", cfg.n(120, 16 * 400), || (), |_, rng, ctx, _| h2_case(rng, ctx)));
+    all.merge(par_cases(cfg, "routes", cfg.n(12_000, 16 * 500_000), || (), |_, rng, ctx, _| case(rng, ctx)));
+    all.merge(par_cases(cfg, "h2", cfg.n(120, 16 * 4000), || (), |_, rng, ctx, _| h2_case(rng, ctx)));
     all.floor("h2.calls", 100);
     all.floor("h2.handler_runs", 10);
     all.floor("h2.unimplemented", 10);
